@@ -1,5 +1,6 @@
 """C13 - matrix containers (thin): split/recombine offsets, Trans composition order, no floats. Entry values NOT decided."""
 import e8b_matrix, e2_float, e27_trans
+import e33_scans
 
 LEVEL = 'other'
 EXPLANATION = ('Only three structural clauses of C13 are decided: (F8) SpMat::divide4 subtracts exactly the row/column offsets that '
@@ -20,6 +21,8 @@ def scope(b):
 
 def run(ctx, rep):
     facts = ctx.facts()
+    rep.rule('E33', e33_scans.__doc__.strip().split('\n')[0])
+    e33_scans.run_for(facts, rep, 'matrices', ['yui_matrix::dense::mat', 'yui_matrix::sparse::sp_mat', 'yui_matrix::sparse::sp_vec'], 7)
     import fixtures
     fixtures.run_controls(rep, ['E2'], lambda: ctx.reload())
     rep.rule('E8b', e8b_matrix.__doc__.strip().split('\n')[0])
